@@ -197,6 +197,7 @@ def drive(case, monitors, learner_cls=None, step_limit=10 ** 7, wall_s=600, use_
     signal.alarm(int(wall_s * float(os.environ.get("PYXABMON_WALL_SCALE", "1") or 1)))
     phase = "init"
     inj = RNGInjection(case.get("inject"))
+    ctx.inj = inj
     try:
         with inj:
             try:
